@@ -1,6 +1,7 @@
 package verifh
 
 import (
+	"fmt"
 	"io"
 	"os"
 	"path/filepath"
@@ -19,7 +20,7 @@ import (
 func TestC18(t *testing.T) {
 	r := NewReporter(t)
 	defer r.Done()
-	r.Rule("(a) every tree with <= N nodes x {plain, PS3}: successive opens with the virtual clock advanced by {0, 1 s, 1 h, 400 d} between them, library view and over the protocol, and reads by absolute offset at every structural boundary +-1 on a fresh open into dirty buffers; (b) two concurrent opens+reads of the same tree under the controlled scheduler (scheduling points = leaf filesystem operations, all interleavings with <= 2/3 preemptions) for 4 representative trees; (c) for these and a PS3 tree with decoy PARAM.SFO files: an open disturbed by one deviation at every leaf filesystem operation index (EIO, EINTR, short reads of 1 / half / all-but-one / 5 / 7 / 8 bytes) fails or yields the same image and stays readable; oracle: equal size, byte-equal outside the PVD/SVD creation/modification timestamps and PS3 sector-1 filler; distinct by (tree, mode, gap | schedule)")
+	r.Rule("(a) every tree with <= N nodes x {plain, PS3}: successive opens with the virtual clock advanced by {0, 1 s, 1 h, 400 d} between them, library view and over the protocol, and reads by absolute offset at every structural boundary +-1 on a fresh open into dirty buffers; (a') a 150-entry directory opened with per-name answer latencies that differ from open to open; (b) two concurrent opens+reads of the same tree under the controlled scheduler (scheduling points = leaf filesystem operations, all interleavings with <= 2/3 preemptions) for 4 representative trees; (c) for these and a PS3 tree with decoy PARAM.SFO files: an open disturbed by one deviation at every leaf filesystem operation index (EIO, EINTR, short reads of 1 / half / all-but-one / 5 / 7 / 8 bytes) fails or yields the same image and stays readable; oracle: equal size, byte-equal outside the PVD/SVD creation/modification timestamps and PS3 sector-1 filler; distinct by (tree, mode, gap | schedule)")
 	base := filepath.Join(scratchBase(), sprintf("verifh-c18-%d", os.Getpid()))
 	root := filepath.Join(base, "root")
 	defer os.RemoveAll(base)
@@ -147,6 +148,68 @@ func TestC18(t *testing.T) {
 				}
 			}
 		})
+	}
+	// (a') a directory with many entries on a filesystem whose answers take different (virtual) time from open to open:
+	// whatever the generator does in parallel, the layout must not depend on which answer comes first
+	idx++
+	if r.Mine(idx) {
+		os.RemoveAll(root)
+		for i := 0; i < 150; i++ {
+			mkFileAbs(filepath.Join(root, "T", "USRDIR", sprintf("f%03d.bin", i)), int64(1+i%5*1000), byte(i), baseTime)
+			if i%10 == 0 {
+				mkFileAbs(filepath.Join(root, "T", "USRDIR", sprintf("d%03d", i), "x.bin"), 5, byte(i), baseTime)
+			}
+		}
+		writeFileAbs(filepath.Join(root, "T", "PS3_GAME", "PARAM.SFO"), mkSFO([]sfoKV{{"TITLE_ID", "BLES01234"}}), baseTime)
+		for _, ps3 := range []bool{false, true} {
+			mask := isoVarMask(ps3)
+			var first []byte
+			for k := 0; k < 5; k++ {
+				var img []byte
+				var err error
+				synctest.Test(t, func(t *testing.T) {
+					leaf := newVFs(afero.NewOsFs(), "leaf")
+					leaf.record = false
+					leaf.Hook = func(e FsEvent) *FsFault {
+						// open k delays the answers about every name whose number is k modulo 4 (k = 0: nobody)
+						if k > 0 && (e.Op == "Stat" || e.Op == "Lstat" || e.Op == "Open") {
+							var n int
+							if c, _ := fmt.Sscanf(filepath.Base(e.Path), "f%d.bin", &n); c == 1 && n%4 == k-1 {
+								time.Sleep(40 * time.Millisecond)
+							}
+						}
+						return nil
+					}
+					var v *pfs.VirtualISO
+					v, err = pfs.NewVirtualISO(afero.NewBasePathFs(leaf, root), "/T", ps3)
+					if err != nil {
+						return
+					}
+					st, _ := v.Stat()
+					img, err = canonicalImage(v, 1<<20, st.Size()+1<<20)
+					v.Close()
+				})
+				r.Transition(1)
+				r.Eval(1)
+				key := sprintf("150-entry directory ps3=%v latency pattern %d", ps3, k)
+				r.State(key)
+				r.Nontrivial(key)
+				if err != nil {
+					r.Violation("C18:latency:create-failed", key+": "+err.Error(), nil)
+					break
+				}
+				if k == 0 {
+					first = img
+					continue
+				}
+				if d := maskedEqual(first, img, mask); d != "" {
+					r.Outcome("latency-changes-layout")
+					r.Violation("C18:latency-changes-layout", sprintf("%s: the image differs from the one built without delays (sizes %d / %d): %s", key, len(first), len(img), d), map[string]any{"ps3": ps3, "pattern": k})
+					break
+				}
+				r.Outcome("latency-same")
+			}
+		}
 	}
 	// (b) concurrent opens under the controlled scheduler
 	bound := 2
